@@ -507,7 +507,7 @@ def fields(line):
 # ---------------------------------------------------------------------------------------------
 # op sequences for the arena model correspondence (harness/h_arena.c vs lean/Driver/Arena.lean)
 
-def gen_ops(r, cid, growth=True):
+def gen_ops(r, cid, growth=True, loads="mutated"):
     """One case line. The generator keeps its own picture of the arena so that the sequence stays
     inside the protocol the theorems assume (registered slots hold null or a pointer to used bytes,
     nothing else overwrites a slot) except for a few deliberate probes at the end of a line."""
@@ -589,7 +589,13 @@ def gen_ops(r, cid, growth=True):
     hdr = 6; tbl = hdr + 12 * n; bod = tbl + sum(used); end = bod + 8 * nrel
     body_off = [tbl + sum(used[:b]) for b in range(n)]
     # loads: intact, prefixes at and around every boundary, single-field corruptions
+    # (C19 is about growth only: no loads; C08 loads intact images; C17 also truncated and corrupted ones)
+    if loads == "none":
+        return cid + " " + " ".join(ops), feats
     ops.append("load:full:%d:%d" % (r.randrange(1 << 30), r.choice([0, 1, 2, 3, 7, 64])))
+    if loads == "full":
+        ops.append("load:full:%d:%d" % (r.randrange(1 << 30), r.choice([1, 2, 5])))
+        return cid + " " + " ".join(ops), feats
     cuts = {0, 1, 3, 4, 5, hdr, hdr + 1, tbl - 1, tbl, tbl + 1, bod - 1, bod, bod + 1, end - 9, end - 8, end - 1} | \
            {bo for bo in body_off} | {bo + 1 for bo in body_off} | {bod + 8 * k for k in range(nrel)} | {bod + 8 * k + r.randint(1, 7) for k in range(nrel)}
     cuts = sorted(c for c in cuts if 0 <= c < end)
@@ -645,6 +651,12 @@ UB_ALIGN_ST = "store_to_misaligned_address_ADDR_for_type_'void_*'"
 UB_INDEX = "index_N_out_of_bounds_for_type_'YR_ARENA_BUFFER_[16]'"
 
 
+def capped(path, limit_mb=200):
+    """command line that runs a harness with its output capped: a code change that makes a harness print
+    gigabytes (e.g. a loader accepting a 2 GiB size field) must not exhaust the memory of the check"""
+    return ["bash", "-c", "set -o pipefail; %s | head -c %d" % (path, limit_mb << 20)]
+
+
 def scratch_env(pid, extra=None):
     import os
     from vf import core
@@ -694,17 +706,17 @@ def ops_agree(impl, model):
     return True, "equal"
 
 
-def ops_tie(chk, b, n, tag, replay_case=None, growth=True):
+def ops_tie(chk, b, n, tag, replay_case=None, growth=True, loads="mutated"):
     """op-sequence correspondence of the Lean arena model with arena.c. Returns (found, cov, ub_seen)."""
     import collections, re
     from vf import core
     r = core.rng(tag)
-    gen = [gen_ops(r, "a%d" % i, growth) for i in range(n)]
+    gen = [gen_ops(r, "a%d" % i, growth, loads) for i in range(n)]
     cases = [g[0] for g in gen]
     if replay_case:
         cases = [replay_case]
     env = scratch_env(chk.pid)
-    impl, rc, err = core.run_parallel([b["h_arena"]], cases, env=env)
+    impl, rc, err = core.run_parallel(capped(b["h_arena"]), cases, env=env)
     model, mrc, merr = core.run_parallel([core.driver_path(), "arena"], cases)
     found = False
     if rc != 0 or mrc != 0:
@@ -730,7 +742,7 @@ def ops_tie(chk, b, n, tag, replay_case=None, growth=True):
         if not replay_case:
             for f in gen[i][1]:
                 feats[f] += 1
-        if "S=" in m and "load:" in c and any(x.startswith("sp:") or x.startswith("p:") for x in c.split()):
+        if "S=" in m and any(x.startswith("sp:") or x.startswith("p:") for x in c.split()):
             nontrivial.add(c.split(" ", 1)[1])
         if not ok:
             nbad += 1
